@@ -1247,7 +1247,7 @@ package p9p
 //@ func (codec9p).Unmarshal
 //@ property C01
 //@ use wirekind wiredefr bytes noassoc wirelist
-//@ prune
+//@ prune returns
 //@ timeout 60
 //@ foreach MessageTversion MessageRversion MessageTauth MessageRauth MessageTattach MessageRattach MessageRerror MessageTflush MessageRflush MessageTopen MessageRopen MessageTcreate MessageRcreate MessageTread MessageRread MessageTwrite MessageRwrite MessageTclunk MessageRclunk MessageTremove MessageRremove MessageTstat MessageRstat MessageTwstat MessageRwstat
 //@ logical f Fcall
@@ -1468,7 +1468,7 @@ package p9p
 //@ timeout 60
 //@ property C17
 //@ use bytes noassoc dirdefr
-//@ prune
+//@ prune returns
 //@ logical d0 Dir
 //@ dyn v : *Dir
 //@ requires v.(*Dir) != nil
@@ -1511,7 +1511,7 @@ package p9p
 //@ timeout 60
 //@ property C17
 //@ use bytes noassoc assoc_r dirdefr wire winframe
-//@ prune
+//@ prune returns
 //@ logical d0 Dir
 //@ logical rest Bytes
 //@ requires codec != nil && d != nil && typeis(rd, *bytes.Reader)
@@ -1656,7 +1656,7 @@ package p9p
 //@ property C01
 //@ timeout 60
 //@ use wirekind wiredefr wirefrom wiresplit wiremono bytes noassoc assoc_r wirelist pinheaps
-//@ prune
+//@ prune returns
 //@ elemptrs
 //@ foreach MessageTwalk MessageRwalk
 //@ logical f Fcall
